@@ -201,6 +201,16 @@ func (v Value) number() _number {
 	case int64:
 		num.int64 = value
 		return num
+	case uint:
+		if uint64(value) <= math.MaxInt64 {
+			num.int64 = int64(value)
+			return num
+		}
+	case uint64:
+		if value <= math.MaxInt64 {
+			num.int64 = int64(value)
+			return num
+		}
 	}
 
 	float := v.float64()
